@@ -19,7 +19,7 @@ DENY = ["zap", "zap a b"]
 
 def config_text(jail_cwd: str) -> str:
     return (f'deny zap "NOZAP"\nallow okcmd\nask askcmd "ASKMSG"\n'
-            f"allow-redirect {jail_cwd}/out/*\ndeny-redirect {jail_cwd}/secret/* \"NOSECRET\"\n"
+            f"allow-redirect {jail_cwd}/out/*\nallow-redirect {jail_cwd}/sub/out/*\ndeny-redirect {jail_cwd}/secret/* \"NOSECRET\"\n"
             f"ask-redirect {jail_cwd}/askme/*\n")
 
 
